@@ -55,7 +55,7 @@ def still_fails(kind, case, workdir):
     if kind.oracle(case, o):
         return True, o
     idx, out = core.eval_shard(workdir, 'shrink', kind.header, kind.case_type, kind.check_fn, [kind.coq(case, o)])
-    return (idx is None or idx == [0]), o
+    return (idx == [0]), o     # a cases file that does not evaluate (idx None) is not evidence that the case still fails
 
 
 def shrink_case(kind, case, workdir, budget_s=40, max_steps=60):
